@@ -390,7 +390,7 @@ static void default_nodeset_case(const unsigned *os)
     for (unsigned i = 0; i < DN; i++) if (os[i] < minos) minos = os[i];
     VP_CHECK(res & (1UL << minos), "the node with the lowest os_index is always part of the default nodeset");
     for (unsigned i = 0; i < DN; i++) if (res & (1UL << os[i])) { VP_CHECK(!(cs[i] & cov), "the returned nodes have pairwise-disjoint cpusets"); cov |= cs[i]; taken++; }
-    if (taken == 2 && cov == rootc && DN == 3) dn_two = 1;
+    if (taken == 2 && cov == rootc) dn_two = 1;
   }
 }
 VP_HARNESS(h_default_nodeset)
@@ -399,6 +399,6 @@ VP_HARNESS(h_default_nodeset)
   static const unsigned perms[][4] = { { 0, 1, 2, 3 }, { 2, 0, 1, 3 }, { 1, 2, 0, 3 }, { 0, 2, 5, 4 }, { 5, 2, 0, 1 }, { 2, 5, 0, 4 }, { 1, 2, 3, 0 }, { 3, 1, 2, 5 } };
   unsigned sel = (unsigned) vp_in_range(0, 7);
   for (unsigned v = 0; v < 8; v++) if (sel == v) default_nodeset_case(perms[v]);
-  VP_WITNESS_IF(dn_two, "two nodes covering the machine, the third left out");
+  VP_WITNESS_IF(dn_two, "two nodes covering the machine, the other(s) left out");
   VP_WITNESS_IF(dn_runs, "a run executed");
 }
